@@ -21,6 +21,7 @@
   proved: engine `xmlload` fuzzes it under ASan/UBSan/LSan and judges loaded topologies with wfCheck.
 -/
 import Hw.Io.XmlScanLemmas
+import Hw.Attr.DistRefreshLemmas
 namespace Hw.Props.C06
 open Hw Hw.XmlScan
 
@@ -197,5 +198,66 @@ example : okP (run fixed ⟨#[60, 114, 111, 111, 116, 62, 60, 97, 32, 98, 61, 34
 example : (lookInit fixed #[60, 114, 111, 111, 116, 62, 60, 97, 32, 98, 61, 34, 120, 38, 97, 109, 112, 59, 121, 34, 32, 99, 61, 34, 49, 34, 62, 60, 100, 47, 62, 116, 120, 116, 60, 47, 97, 62, 60, 47, 114, 111, 111, 116, 62, 0]).toOption.map (·.1.ret) = some 0 := by decide
 example : fillAll 2 0 [[(0, true), (1, true), (7, false)]] = some ([0, 1], 2) := by decide
 example : fillAll 2 0 [[(0, true), (1, true)], [(5, false)]] = none := by decide
+
+/-! ### the end of every load: `hwloc_internal_distances_refresh()` unlinks + frees list nodes while iterating
+
+    Model `Hw.DistRefresh` (lean/Hw/Attr/DistRefresh.lean): a heap of `next`/`prev`/`freed` fields plus
+    `first`/`last`; EVERY field access checks the `freed` mark, so "memory safe" is "returns `.ok`".
+    `refresh false` is the loop of the source, `refresh true` the variant with a loop-local predecessor. -/
+
+/-- distances2 elements that "became useless" are dropped at the end of the load: whatever the list and
+    whatever the set of dropped elements, the loop never touches freed memory, stops within `l.length`
+    iterations, leaves exactly the kept elements, in order, linked in both directions with first/last right,
+    and frees exactly the dropped ones (every other `freed` mark unchanged) -/
+theorem C06_distances_refresh_links (h : Hw.DistRefresh.Heap) (l : List Nat) (hl : Hw.DistRefresh.Linked h l)
+    (drop : Nat → Bool) :
+    ∃ h', Hw.DistRefresh.refresh false drop h l.length = .ok h' ∧
+          Hw.DistRefresh.Linked h' (l.filter (fun d => !drop d)) ∧
+          (∀ p, h'.freed p = (h.freed p || (decide (p ∈ l) && drop p))) :=
+  Hw.DistRefresh.refresh_spec h l hl drop
+
+/-- ... hence every later consumer (distances_get, export, dup, destroy: first → next → ...) sees exactly the
+    kept elements and never reads a freed one -/
+theorem C06_distances_refresh_then_walk (h : Hw.DistRefresh.Heap) (l : List Nat)
+    (hl : Hw.DistRefresh.Linked h l) (drop : Nat → Bool) :
+    ∃ h', Hw.DistRefresh.refresh false drop h l.length = .ok h' ∧
+          Hw.DistRefresh.walk h' l.length h'.first = .ok (l.filter (fun d => !drop d)) :=
+  Hw.DistRefresh.refresh_then_walk h l hl drop
+
+/-- negative lemma (the model tells the variants apart): with the predecessor kept in a loop-local variable
+    advanced by the for-increment, the first two ADJACENT dropped elements `a`, `b` make the unlink of `b`
+    write `a->next` after `a` was freed -/
+theorem C06_distances_refresh_running_prev_uaf (h : Hw.DistRefresh.Heap) (a b : Nat) (pre post : List Nat)
+    (hl : Hw.DistRefresh.Linked h (pre ++ a :: b :: post)) (drop : Nat → Bool)
+    (hk : ∀ x ∈ pre, drop x = false) (ha : drop a = true) (hb : drop b = true) :
+    Hw.DistRefresh.refresh true drop h (pre ++ a :: b :: post).length = .error (.uaf a) :=
+  Hw.DistRefresh.running_uaf h a b pre post hl drop hk ha hb
+
+/-- exhaustive: every list `0..n-1` of at most 5 elements and every drop mask `m < 2^n` (`drop d = m.testBit d`):
+    the real loop is safe and a walk of its result gives the kept elements; the `running` variant fails IFF
+    the mask drops two adjacent elements (with `.uaf` of the first such element), and otherwise also leaves
+    the kept elements (`Hw.DistRefresh.checkOne`; unpacked below) -/
+theorem C06_distances_refresh_all_patterns_le5 : Hw.DistRefresh.checkAll = true :=
+  Hw.DistRefresh.all_patterns_le5
+
+theorem C06_distances_refresh_all_patterns_le5_spec (n m : Nat) (hn : n ≤ 5) (hm : m < 2 ^ n) :
+    (∃ h', Hw.DistRefresh.refresh false (fun d => m.testBit d) (Hw.DistRefresh.mk (List.range n)) n = .ok h' ∧
+           Hw.DistRefresh.walk h' n h'.first = .ok ((List.range n).filter (fun d => !m.testBit d))) ∧
+    ((∃ e, Hw.DistRefresh.refresh true (fun d => m.testBit d) (Hw.DistRefresh.mk (List.range n)) n = .error e) ↔
+      ∃ i, i + 1 < n ∧ m.testBit i = true ∧ m.testBit (i + 1) = true) ∧
+    (∀ h', Hw.DistRefresh.refresh true (fun d => m.testBit d) (Hw.DistRefresh.mk (List.range n)) n = .ok h' →
+           Hw.DistRefresh.walk h' n h'.first = .ok ((List.range n).filter (fun d => !m.testBit d))) :=
+  Hw.DistRefresh.all_patterns_le5_spec n m hn hm
+
+/-! non-vacuity: a linked heap of 4 elements; dropping the two middle ones is safe in the source and a
+    use after free in the `running` variant -/
+example : Hw.DistRefresh.Linked (Hw.DistRefresh.mk [0, 1, 2, 3]) [0, 1, 2, 3] := Hw.DistRefresh.linked_mk_0123
+example : ∃ h', Hw.DistRefresh.refresh false (fun d => d == 1 || d == 2) (Hw.DistRefresh.mk [0, 1, 2, 3]) 4 = .ok h' ∧
+    Hw.DistRefresh.Linked h' [0, 3] := by
+  obtain ⟨h', e, l, -⟩ := C06_distances_refresh_links _ _ Hw.DistRefresh.linked_mk_0123 (fun d => d == 1 || d == 2)
+  exact ⟨h', e, l⟩
+example : Hw.DistRefresh.refresh true (fun d => d == 1 || d == 2) (Hw.DistRefresh.mk [0, 1, 2, 3]) 4
+    = .error (.uaf 1) :=
+  C06_distances_refresh_running_prev_uaf _ 1 2 [0] [3] Hw.DistRefresh.linked_mk_0123 _ (by simp) rfl rfl
 
 end Hw.Props.C06
